@@ -59,8 +59,10 @@ def run_fuse(pair, out_fn, rng=None, threads=2, fault=None, controlled=True, tim
                         # the same reader object must be usable again after a failed call
                         rec.fault = None
                         try:
+                            # (the retry after a failure is made with another thread count: 1 after a threaded call, 2 after a serial one)
                             rf.process(out_fn, Model(kw.get('model', 'gain')), tuple(kw.get('kernel_shape', (3, 3))), param_filename=param_fn,
-                                       build_ovw=False, overwrite=True, block_config=dict(threads=threads, max_block_mem=kw.get('max_block_mem', 100)))
+                                       build_ovw=False, overwrite=True,
+                                       block_config=dict(threads=kw.get('reuse_threads', 1 if threads != 1 else 2), max_block_mem=kw.get('max_block_mem', 100)))
                             box['reuse'] = 'ok'
                         except BaseException as ex:   # noqa: B902
                             box['reuse'] = 'raise:' + type(ex).__name__
